@@ -54,4 +54,16 @@ def Seg.delLineEnd (s : Seg) (e : Nat) : Option Seg :=
     | some q => some ((s.upd q fun sl => sl.setNext none).freeSlot e)
     | none => none
 
+/-- The level-0 distribution loop of `Segment::justify` with its body abstracted:
+`int rounds = 0; do { body } while (again && ++rounds <= numSlots);` - `body` is one round over the slots of the line and answers
+`i == 0 && int(abs(error)) > 0 && tWeight`.  The first argument is `numSlots - rounds`.  Returns the final state and the number of rounds. -/
+def distLoop {σ : Type} (body : σ → σ × Bool) : Nat → σ → σ × Nat
+  | 0, st => ((body st).1, 1)
+  | left + 1, st =>
+    let (st', again) := body st
+    if again then
+      let (st'', c) := distLoop body left st'
+      (st'', c + 1)
+    else (st', 1)
+
 end GrVerif.Seg
